@@ -87,7 +87,7 @@ class Engine(ExprMixin, StmtMixin, CallMixin, BuiltinMixin, EngineBase):
         node = self.parse_spec(s) if isinstance(s, str) else s
         saved = (self.spec_mode, self.spec_env)
         self.spec_mode = True
-        self.spec_env = dict(saved[1]) if saved[0] else {}
+        self.spec_env = dict(saved[1]) if saved[0] else dict(self.ghost_env)
         self.spec_env.update(env or {})
         npc = len(p.pc)
         heap_before = dict(p.heap)
